@@ -124,6 +124,11 @@ def is_sym(v) -> bool:
 
 def truthy(v):
     """z3 Bool (or Python bool) of Python truthiness."""
+    if type(v).__name__ == 'JoinedTokens':
+        toks = v.tokens
+        if isinstance(toks, list):
+            return len(toks) > 0
+        return toks.nonempty() if hasattr(toks, 'nonempty') else True
     if isinstance(v, SV):
         if v.kind == 'bool':
             t = v.z
